@@ -58,6 +58,11 @@ class Skip(Exception):
     """The generated case is outside the input domain (consistently refused)."""
 
 
+class SkipWorld(Skip):
+    """Raised by one rank: the whole World is outside the input domain whatever the other ranks were doing
+    (e.g. this job lost a race for a directory against another job and was refused loudly)."""
+
+
 class HarnessProblem(Exception):
     """Something the harness itself cannot do with this tree (API it relies on is gone,
     a seam is no longer reached).  Reported as a harness error (exit 2), never as a violation."""
@@ -159,6 +164,9 @@ def execute(prop, nranks, sched, tape, rank_fn, post_fn=None):
 def _classify_exception(res, w):
     excs = [(r, e) for r, e in enumerate(w.excs) if e is not None]
     types = {e[0] for _, e in excs}
+    if 'SkipWorld' in types:
+        res.update(status='skip', kind='skip', message=[e[1] for _, e in excs if e[0] == 'SkipWorld'][0])
+        return
     if types == {'Skip'} and len(excs) == w.n - len(getattr(w, 'bystanders', ())):
         res.update(status='skip', kind='skip', message=excs[0][1][1])
         return
@@ -196,7 +204,7 @@ def _harness_side(e):
     """True when a TypeError/AttributeError/NotImplementedError was raised *inside* the simulated MPI,
     the seams or the harness glue itself: the code under test used (or the harness relied on) an API
     the harness does not model.  That is a limitation of the harness, not a property violation."""
-    if e[0] in ('OracleFail', 'Skip', 'MPIUsageError'):
+    if e[0] in ('OracleFail', 'Skip', 'SkipWorld', 'MPIUsageError'):
         return False
     frames = [ln for ln in e[2].splitlines() if ln.strip().startswith('File "')]
     if not frames:
@@ -351,6 +359,9 @@ def _run_with_kinds(self, fn, join_timeout=30.0):
         except OracleFail as e:
             self.excs[r] = ('OracleFail', jdump(simworld._jsonable(e.detail))[:1800],
                             traceback.format_exc(), e.kind)
+            raise simworld.SimAbort()
+        except SkipWorld as e:
+            self.excs[r] = ('SkipWorld', str(e), '')
             raise simworld.SimAbort()
         except Skip as e:
             self.excs[r] = ('Skip', str(e), '')
